@@ -173,9 +173,10 @@ def run(m, chk):
         if not r.has(q):
             raise AnalysisError(f"anchor vanished: composite mutator {q}")
 
-    from .extra import precheck_weights
+    from .extra import precheck_len, precheck_weights
 
     precheck_weights(r, chk, [fi.qual for fi in muts])
+    precheck_len(r, chk, "curves.BaseCurve.apply")
     # 3. non-mutating operations --------------------------------------------------------------
     n_pure = 0
     for cls, table in NONMUT.items():
